@@ -225,6 +225,10 @@ func directed(r *vk.Run, st *Stats) {
 	cfgB := Cfg{FileSize: 4096, WriteBuf: 1024, MaxActive: 3, IOConc: 1, AhtThld: 2, AhtBuf: 512}
 	// C: PreallocFiles, write buffer smaller than a commit entry
 	cfgC := Cfg{FileSize: 1024, WriteBuf: 32, MaxActive: 2, IOConc: 1, AhtThld: 3, AhtBuf: 64, Prealloc: true}
+	// D (fixed by 0b488aa): small chunks, the tree fsyncs ahead of the tx log, crash, recovery rewinds the
+	// tree, the next Append cuts its payload/digest logs (chunk files removed), second crash before the
+	// tree syncs again
+	cfgD := Cfg{FileSize: 256, WriteBuf: 64, MaxActive: 3, IOConc: 1, AhtThld: 2, AhtBuf: 64}
 	type sc struct {
 		name string
 		cfg  Cfg
@@ -234,6 +238,7 @@ func directed(r *vk.Run, st *Stats) {
 		{"A", cfgA, Budget{Points: 60, Workers: 8, OnlyPol: []string{"only:tx", "os"}}},
 		{"B", cfgB, Budget{Points: 40, Workers: 8, Stage2: 40, Points2: 12, OnlyPol: []string{"only:aht"}, OnlyPol2: []string{"except:aht", "dur"}}},
 		{"C", cfgC, Budget{Points: 60, Workers: 8, OnlyPol: []string{"os", "only:commit"}}},
+		{"D", cfgD, Budget{Points: 40, Workers: 8, Stage2: 40, Points2: 14, OnlyPol: []string{"only:aht", "dur"}, OnlyPol2: []string{"dur", "except:aht", "only:aht", "notrunc", "os"}}},
 	} {
 		seed := int64(7000 + i)
 		rng := rand.New(rand.NewSource(seed))
